@@ -31,8 +31,22 @@ def spec_table():
     return tbl
 
 
+def row_width():
+    """declared width of one message slot (`const char cif_errlist[][80]`), None when the table is declared otherwise"""
+    for f in ("cif.c", "cif_error.h", "cif.h"):
+        try:
+            src = open(os.path.join(REPO, "src", f), encoding="utf-8", errors="replace").read()
+        except OSError:
+            continue
+        m = re.search(r"cif_errlist\s*\[\s*\]\s*\[\s*(\d+)\s*\]", src)
+        if m:
+            return int(m.group(1))
+    return None
+
+
 _codes = None
 _spec = None
+_width = -1
 
 
 def generate(seed, tier):
@@ -75,6 +89,13 @@ def oracle(req, impl):
     msg = "".join(chr(u) for u in unhexs(a[1])).lower()
     if not msg:
         return "cif_errlist[%s] (%s) is empty" % (t[1], name)
+    global _width
+    if _width == -1:
+        _width = row_width()
+    if _width is not None and len(msg) >= _width:
+        # the initialiser filled the whole slot: no terminator, an application printing cif_errlist[rc] runs on into the next slot
+        return ("cif_errlist[%s] (%s) is not terminated inside its %d-byte slot: printed as a string it reads %r"
+                % (t[1], name, _width, msg[:200]))
     groups = _spec.get(name)
     if groups is None:
         groups = [[w.lower() for w in name.split("_") if len(w) >= 4]]
